@@ -19,6 +19,9 @@ def cases(draw, procs):
     spec = draw(gen.worlds(max_layers=4, min_layers=1 if procs else 0, hooks='layer', faults=faults, nie=nie,
                            kinds=gen.GOOD_KINDS, max_modules=3, depth=1, max_tests=3, layer_decl=85,
                            explicit_unit=True, max_children=3))
+    if draw(st.integers(0, 4)) == 0:
+        # directed topology (tear-down sweeps that meet a failure and a NotImplementedError, shared failing bases)
+        spec = draw(gen.shaped_world(kinds=gen.GOOD_KINDS))
     for L in spec['layers']:
         if draw(st.integers(0, 99)) < 60:
             L['hooks'] = sorted(set(L['hooks']) | {'setUp', 'tearDown'}, key=gen.HOOKS.index)
